@@ -13,7 +13,8 @@ RULE = ("operation histories (5-40 ops quick, up to 200 thorough) over 1-3 bucke
         "bulk insert, bulk upsert (live ids of that bucket mixed with id-less events), replace(id), replace_last "
         "(non-empty bucket, preceded by the limit-1 read that identifies its target), delete(live id), delete(id "
         "that never existed), occasionally delete + re-create of the bucket; timestamps from a pool of 6 instants and end instants from a pool (ties, nesting, "
-        "zero-length, decreasing order, delete-then-upsert, delete-max-id-then-insert); after EVERY operation the "
+        "zero-length, decreasing order, delete-then-upsert, delete-max-id-then-insert, identical twins with different ids, "
+        "durations beyond a day); after EVERY operation the "
         "whole observable state of every bucket (listing multiset + order, limit-1, lookup of every id ever seen, "
         "count) is compared with a dict model (in a third of the cases 'quiet': per-op comparison through the writer "
         "connection's own uncommitted view by uid, full API comparison once at the end - an API read commits on the lazy "
@@ -32,6 +33,10 @@ def plan(tier):
 def _ev(rng, pool_s, pool_e, uid):
     s = rng.choice(pool_s)
     r = rng.random()
+    if r < 0.05:
+        # longer than a day (anything that splits a duration into days / seconds / microseconds must put it back together)
+        return dict(ts=s, dur=rng.choice([86400, 86401, 90000, 2 * 86400 + 10, 30 * 86400]) * 10**6 + rng.choice([0, 1, 999999]),
+                    data={"uid": uid, "x": "long"})
     if r < 0.25:
         e = s
     else:
@@ -59,7 +64,11 @@ def gen_case(rng, ctx):
     for _ in range(n):
         b = rng.randrange(nb)
         r = rng.random()
-        if r < 0.28:
+        if r < 0.06 and ops and any(o["op"] == "insert" for o in ops):
+            # an identical twin of an event inserted earlier: same instant, duration AND data (uid included), new id
+            twin = rng.choice([o for o in ops if o["op"] == "insert"])
+            ops.append(dict(op="insert", b=twin["b"], ev=dict(twin["ev"]), twin=True))
+        elif r < 0.28:
             ops.append(dict(op="insert", b=b, ev=ev()))
         elif r < 0.36:
             ops.append(dict(op="bulk", b=b, evs=[ev() for _ in range(rng.choice([0, 1, 2, 3, 5]))]))
